@@ -308,14 +308,14 @@ const (
 var causeNames = []string{"cancel", "deadline", "close-from-goroutine", "runtime-close", "cancel-with-custom-cause", "timeout-with-custom-cause"}
 
 type scenario struct {
-	Derived bool  `json:"host_reenters_with_derived_context,omitempty"`
-	Shape  string `json:"shape"`
-	Yield  bool   `json:"yield"`
-	Pad    int    `json:"padding"`
-	Cause  string `json:"cause"`
-	Moment string `json:"moment"`
-	K      int    `json:"k"`
-	Code   uint32 `json:"close_code"`
+	Derived bool   `json:"host_reenters_with_derived_context,omitempty"`
+	Shape   string `json:"shape"`
+	Yield   bool   `json:"yield"`
+	Pad     int    `json:"padding"`
+	Cause   string `json:"cause"`
+	Moment  string `json:"moment"`
+	K       int    `json:"k"`
+	Code    uint32 `json:"close_code"`
 }
 
 func (c07) Run(t *tape.Tape, cfg sim.Config) (res sim.Result) {
